@@ -1,9 +1,11 @@
 #!/bin/bash
-# runs every quick check once, prints one line per check
+# tools/runall.sh [tier] [ids...]: runs the checks (default: all twenty) once, prints one line per check
 cd "$(dirname "$0")/.."
-for n in $(seq -w 1 20); do
+tier=${1:-quick}; shift
+ids=${@:-$(seq -f "C%02g" 1 20)}
+for id in $ids; do
   t0=$(date +%s)
-  out=$(./check C$n --tier ${1:-quick} 2>&1); rc=$?
-  echo "C$n rc=$rc $(( $(date +%s) - t0 ))s $(echo "$out" | tail -1)"
+  out=$(./check $id --tier $tier 2>&1); rc=$?
+  echo "$id rc=$rc $(( $(date +%s) - t0 ))s $(echo "$out" | tail -1)"
   echo "$out" | grep -E "^(VIOLATION|HARNESS|KNOWN)" | head -3
 done
